@@ -175,13 +175,13 @@ class ScaledProblem(Problem):
 
     def obj(self, x):
         x_orig = self._orig_x(x)
-        obj_orig = self.problem.obj(x_orig)
+        obj_orig = float(self.problem.obj(x_orig))
         return np.ldexp(obj_orig, self.scaling.obj_weight)
 
     def obj_grad(self, x):
         var_weights = self.scaling.var_weights
         x_orig = self._orig_x(x)
-        grad_orig = self.problem.obj_grad(x_orig)
+        grad_orig = np.asarray(self.problem.obj_grad(x_orig), dtype=float)
         grad = np.ldexp(grad_orig, -var_weights)
 
         return np.ldexp(grad, self.scaling.obj_weight)
@@ -190,7 +190,7 @@ class ScaledProblem(Problem):
         cons_weights = self.scaling.cons_weights
         x_orig = self._orig_x(x)
 
-        cons_orig = self.problem.cons(x_orig)
+        cons_orig = np.asarray(self.problem.cons(x_orig), dtype=float)
 
         return np.ldexp(cons_orig, cons_weights)
 
